@@ -109,3 +109,20 @@ Proof.
   unfold PositiveConstraint_value. cbn [fltb fofZ RNum]. destruct (existsb _ _) eqn:E; [discriminate|]. intros _.
   apply existsb_neg_false. exact E.
 Qed.
+
+(* IndicatorBox: every coefficient outside [0, C] belongs to the generalized support (regenerated kernel), hence is forced
+   into AndersonCD's working set and projected back by the first epoch -- this is what makes a refit with a smaller C
+   from a warm start (old dual coefficients above the new C) feasible after ONE epoch, whatever the budget *)
+Theorem IndicatorBox_gsupp_covers_infeasible C (w : list R) gs :
+  @IndicatorBox_generalized_support R _ C w = Ok gs ->
+  length gs = length w /\
+  forall j, (j < length w)%nat -> (nth j w 0 < 0 \/ C < nth j w 0) -> 0 <= C -> nth j gs false = true.
+Proof.
+  unfold IndicatorBox_generalized_support, ret. intros Hg. inversion Hg; subst gs; clear Hg. split.
+  - rewrite map_length, combine_length, !map_length. apply Nat.min_id.
+  - intros j Hj Hout HC. cbn [feqb fofZ RNum].
+    revert j Hj Hout. induction w as [|a w IH]; intros j Hj Hout; [simpl in Hj; lia|].
+    destruct j as [|j]; simpl.
+    + simpl in Hout. unfold Reqb. destruct (Req_EM_T a 0) as [e|e]; [exfalso; lra|]. destruct (Req_EM_T a C) as [e2|e2]; [exfalso; lra|]. reflexivity.
+    + apply IH; [simpl in Hj; lia|exact Hout].
+Qed.
